@@ -33,6 +33,7 @@ structure Mirror (c : Conv) : Prop where
   sp : ∀ p, Dict.get c.synToPrefix p = (Spec.ownerP c.records p).map (·.pfx)
   rm : ∀ k, Dict.get c.revMap k = (Spec.ownerU c.records k).map (·.pfx)
   tr : ∀ k, Dict.get c.trie k = (Spec.ownerU c.records k).map (·.pfx)
+  pat : ∀ p, Dict.get c.patMap p = Spec.patternOf c.records p
 
 structure WF (c : Conv) : Prop where
   unique : Unique c.records
@@ -125,11 +126,102 @@ theorem get_getReversePrefixMap {recs : List Record} (h : Unique recs) (k : Str)
   generalize List.find? (fun r : Record => decide (k ∈ r.uri :: r.uSyn)) recs = o
   cases o <;> rfl
 
+
+/-- in a one-owner collection a canonical prefix identifies its record -/
+theorem find?_pfx_of_mem {recs : List Record} (h : Unique recs) {r : Record} (hr : r ∈ recs) :
+    recs.find? (fun x => x.pfx == r.pfx) = some r := by
+  induction recs with
+  | nil => cases hr
+  | cons a as ih =>
+    have hp := List.pairwise_cons.mp h
+    rw [List.find?_cons]
+    by_cases ha : a.pfx = r.pfx
+    · have hb : (a.pfx == r.pfx) = true := by simpa using ha
+      rw [hb]
+      rcases List.mem_cons.mp hr with rfl | hr'
+      · rfl
+      · exact absurd (by rw [ha]; simp [Record.allP]) ((hp.1 r hr').1 a.pfx (by simp [Record.allP]))
+    · have hb : (a.pfx == r.pfx) = false := by simpa using ha
+      rw [hb]
+      rcases List.mem_cons.mp hr with rfl | hr'
+      · exact absurd rfl ha
+      · exact ih hp.2 hr'
+
+def patStep (p : Str) (acc : Option Str) (r : Record) : Option Str :=
+  if r.pfx = p ∧ r.truePattern.isSome then r.truePattern else acc
+
+theorem get_patSet (d : Dict Str) (r : Record) (p : Str) :
+    Dict.get (patSet d r) p = patStep p (Dict.get d p) r := by
+  unfold patSet patStep
+  cases ht : r.truePattern with
+  | none => simp
+  | some q =>
+    simp only [Option.isSome_some, and_true]
+    rw [Dict.get_set]
+
+theorem get_getPatternMap_aux (recs : List Record) (d0 : Dict Str) (p : Str) :
+    Dict.get (recs.foldl patSet d0) p = recs.foldl (patStep p) (Dict.get d0 p) := by
+  induction recs generalizing d0 with
+  | nil => rfl
+  | cons r rs ih =>
+    simp only [List.foldl_cons]
+    rw [ih, get_patSet]
+
+theorem foldl_pat_noop (p : Str) (rs : List Record) (acc : Option Str) (h : ∀ s ∈ rs, s.pfx ≠ p) :
+    rs.foldl (patStep p) acc = acc := by
+  induction rs generalizing acc with
+  | nil => rfl
+  | cons s ss ih =>
+    simp only [List.foldl_cons]
+    have hs : ¬ (s.pfx = p ∧ s.truePattern.isSome) := fun hh => h s (by simp) hh.1
+    unfold patStep
+    rw [if_neg hs]
+    exact ih acc (fun t ht => h t (by simp [ht]))
+
+theorem foldl_pat_eq {recs : List Record} (h : Unique recs) (p : Str) (acc : Option Str) :
+    recs.foldl (patStep p) acc =
+      match recs.find? (fun r => r.pfx == p) with
+      | some r => if r.truePattern.isSome then r.truePattern else acc
+      | none => acc := by
+  induction recs generalizing acc with
+  | nil => rfl
+  | cons a as ih =>
+    have hp := List.pairwise_cons.mp h
+    simp only [List.foldl_cons, List.find?_cons]
+    by_cases ha : a.pfx = p
+    · have hb : (a.pfx == p) = true := by simpa using ha
+      rw [hb]
+      simp only
+      rw [foldl_pat_noop p as _ ?_]
+      · unfold patStep; simp [ha]
+      · intro s hs e
+        exact (hp.1 s hs).1 a.pfx (by simp [Record.allP]) (by rw [ha, ← e]; simp [Record.allP])
+    · have hb : (a.pfx == p) = false := by simpa using ha
+      rw [hb]
+      simp only
+      have : patStep p acc a = acc := by unfold patStep; simp [ha]
+      rw [this]
+      exact ih hp.2 acc
+
+theorem get_getPatternMap {recs : List Record} (h : Unique recs) (p : Str) :
+    Dict.get (getPatternMap recs) p = Spec.patternOf recs p := by
+  unfold getPatternMap Spec.patternOf
+  rw [get_getPatternMap_aux, foldl_pat_eq h]
+  show (match List.find? (fun r => r.pfx == p) recs with
+    | some r => if r.truePattern.isSome then r.truePattern else none
+    | none => none) = _
+  cases List.find? (fun r => r.pfx == p) recs with
+  | none => rfl
+  | some r =>
+    simp only [Option.bind_some]
+    cases r.truePattern <;> rfl
+
 theorem mirror_build (d : Str) {recs : List Record} (h : Unique recs) : Mirror (Conv.build d recs) where
   pm := get_getPrefixMap h
   sp := get_getPrefixSynmap h
   rm := get_getReversePrefixMap h
   tr := get_getReversePrefixMap h
+  pat := get_getPatternMap h
 
 /-! ### the duplicate listings are empty exactly for one-owner collections -/
 
